@@ -200,28 +200,31 @@ func (f *Filter) defaultJSMappingCallback(isolated *sourcemap.Mapping) {
 }
 
 func (f *Filter) normalizePath(file string) string {
-	switch hasGopathPrefix, prefixLen := hasGopathPrefix(file, f.gopath); {
-	case f.localMap:
+	if f.localMap {
 		// no-op:  keep file as-is
 		return file
-	case hasGopathPrefix:
-		return filepath.ToSlash(file[prefixLen+4:])
-	case strings.HasPrefix(file, f.goroot):
-		return filepath.ToSlash(file[len(f.goroot)+4:])
-	default:
-		return filepath.Base(file)
 	}
-}
-
-// hasGopathPrefix returns true and the length of the matched GOPATH workspace,
-// iff file has a prefix that matches one of the GOPATH workspaces.
-func hasGopathPrefix(file, gopath string) (hasGopathPrefix bool, prefixLen int) {
-	gopathWorkspaces := filepath.SplitList(gopath)
-	for _, gopathWorkspace := range gopathWorkspaces {
-		gopathWorkspace = filepath.Clean(gopathWorkspace)
-		if strings.HasPrefix(file, gopathWorkspace) {
-			return true, len(gopathWorkspace)
+	for _, gopathWorkspace := range filepath.SplitList(f.gopath) {
+		if rel, ok := srcRelative(file, gopathWorkspace); ok {
+			return rel
 		}
 	}
-	return false, 0
+	if rel, ok := srcRelative(file, f.goroot); ok {
+		return rel
+	}
+	return filepath.Base(file)
+}
+
+// srcRelative returns the path of file relative to the src directory of root
+// (with its leading separator, e.g. "/fmt/print.go") iff file is located inside
+// of that directory. A root that merely is a string prefix of file
+// (/usr/local/go for /usr/local/go-projects/app/main.go) or that contains the
+// file outside of its src directory ($GOPATH/pkg/mod/...) does not match.
+func srcRelative(file, root string) (rel string, ok bool) {
+	sep := string(filepath.Separator)
+	src := strings.TrimSuffix(filepath.Clean(root), sep) + sep + "src" + sep
+	if !strings.HasPrefix(file, src) {
+		return "", false
+	}
+	return filepath.ToSlash(file[len(src)-1:]), true
 }
